@@ -37,7 +37,7 @@ _CONTRACTS = ["contract:array_2d_util.array_2d_slim_from", "contract:array_2d_ut
 MIN_MONITORS = {"*": dict({c: 1 for c in _CONTRACTS}, **{"array2d.slim": 1, "grid2d.native": 1, "vector.slim": 1,
                                                          "indexes.native_for_slim": 1, "array1d.roundtrip": 1, "shared_input.two_masks": 1,
                                                          "shared_input.remasked_structure": 1, "history.native_after_assignment": 20,
-                                                         "history.indexes_after_mask_edit": 20, "mask_spelling.same_as_boolean": 20})}
+                                                         "history.indexes_after_mask_edit": 20, "mask_spelling.same_as_boolean": 20, "remask.apply_mask_on_masked_structure": 20})}
 
 
 def plan(tier, seed):
@@ -266,6 +266,25 @@ def check_2d(ctx, m, rng, full=True, lite=False):
                 G2 = aa.Grid2D(values=gsh, mask=mask2, store_native=store_native)
                 ctx.check(np.array_equal(_np(G2.slim), gpr[~m2]) and np.array_equal(_np(G1.slim), gpr[~m]), "shared_input.two_masks", structure="Grid2D",
                           mask=m, second_mask=m2, store_native=store_native)
+            # apply_mask on structures that are ALREADY masked (both storage modes), incl. removing the mask again with an all-False
+            # mask: the result lists the values of the pixels unmasked in BOTH masks, zero elsewhere
+            for m_new, how in ((m2, "other_mask"), (m, "same_mask"), (np.zeros((H, W), bool), "all_false")):
+                mk_new = aa.Mask2D(mask=m_new.copy(), pixel_scales=(1.0, 2.0))
+                both = np.where(m_new | m, 0.0, pristine)
+                gboth = np.where((m_new | m)[:, :, None], 0.0, np.stack([pristine, -2.0 * pristine], axis=-1))
+                for store_native in (False, True):
+                    try:
+                        A0 = aa.Array2D(values=pristine.copy(), mask=mask, store_native=store_native)
+                        Am = A0.apply_mask(mask=mk_new)
+                        okA = (np.array_equal(_np(Am.native), both) and np.array_equal(_np(Am.slim), both[~m_new])
+                               and np.array_equal(np.asarray(Am.mask), m_new) and np.array_equal(_np(A0.native), np.where(m, 0.0, pristine)))
+                        V0 = aa.VectorYX2D(values=np.stack([pristine, -2.0 * pristine], axis=-1), grid=np.stack([pristine, pristine], axis=-1), mask=mask, store_native=store_native)
+                        Vm = V0.apply_mask(mask=mk_new)
+                        okV = np.array_equal(_np(Vm.native), gboth) and np.array_equal(_np(Vm.slim), gboth[~m_new])
+                        ctx.check(okA and okV, "remask.apply_mask_on_masked_structure", how=how, array_ok=okA, vectors_ok=okV, first_mask=m, second_mask=m_new,
+                                  store_native=store_native, got=lambda: [_np(Am.native), _np(Vm.native)[:, :, 0]])
+                    except Exception as e:
+                        ctx.check(False, "remask.apply_mask_on_masked_structure", how=how, first_mask=m, second_mask=m_new, store_native=store_native, exception=repr(e)[:200])
             B1 = aa.Array2D(values=pristine.copy(), mask=aa.Mask2D(mask=np.zeros((H, W), bool), pixel_scales=(1.0, 2.0)), store_native=True)
             C1 = aa.Array2D(values=B1, mask=mask)            # re-masking a native-stored structure
             C2 = aa.Array2D(values=B1, mask=mask2)
